@@ -182,10 +182,25 @@ func c15Specs() []*edt.Spec {
 					return "the last 32 bytes are not the encoding of s"
 				}
 				s := spart.Args[0].Args[0]
-				if s.Op != "Scalar.Add" || s.Args[0].Op != "Scalar.Mul" || s.Args[0].Args[1].String() != x.String() {
+				// operands of the commutative scalar operations are matched by role, not by position
+				if s.Op != "Scalar.Add" || len(s.Args) != 2 {
 					return "s is not c·x + k: " + clip(ab(s.String()), 200)
 				}
-				c, k := s.Args[0].Args[0], s.Args[1]
+				prod, k := s.Args[0], s.Args[1]
+				if prod.Op != "Scalar.Mul" {
+					prod, k = k, prod
+				}
+				if prod.Op != "Scalar.Mul" || len(prod.Args) != 2 {
+					return "s is not c·x + k: " + clip(ab(s.String()), 200)
+				}
+				c := prod.Args[0]
+				switch x.String() {
+				case prod.Args[1].String():
+				case prod.Args[0].String():
+					c = prod.Args[1]
+				default:
+					return "s is not c·x + k with the x that produced Gamma: " + clip(ab(s.String()), 200)
+				}
 				if cpart.Op != "sel" || cpart.Args[0].Op != "out1" || cpart.Args[0].Args[0].Op != "Scalar.ToBytes" || cpart.Args[0].Args[0].Args[0].String() != c.String() || cpart.Args[1].String() != "[0:16]" {
 					return "bytes 32..48 of the proof are not the first 16 bytes of the encoding of the same challenge c used in s"
 				}
